@@ -26,7 +26,9 @@ CONSTANTS Workers, Channels, JobIds, Prios, Tmos, Ttls, Clients, Killers,
           DropOnKill,          \* a job sitting in the mailbox of a killed puller is dropped
           RequeueDone,         \* shutdown re-pushes finished jobs too
           DeliverDone,         \* pop returns a job that finished while in the mailbox
-          WithRestart, WithWait, WithInfo, WithDrop, WithReconnect, AtomicDrain
+          WithRestart, WithWait, WithInfo, WithDrop, WithReconnect, AtomicDrain,
+          AnyRequeueOrder     \* TRUE: the unfinished jobs of a dropped connection may be re-queued in any order
+                              \* (the code uses the insertion order of running_jobs; the property leaves it free)
 
 VARIABLES count,     \* serial counter (workq.count)
           job,       \* sequence of job records indexed by serial
@@ -76,6 +78,12 @@ PushAll(sts, ss) ==
   ELSE PushAll(UNION {Push(st, Head(ss), job[Head(ss)].ch) : st \in sts}, Tail(ss))
 
 St(wt, hp, wk) == [waiter |-> wt, heap |-> hp, wake |-> wk]
+
+(* all orders in which a set of jobs can be pushed (sets of <= 4 jobs) *)
+PermSeqs(S) == {p \in [1..Cardinality(S) -> S] : \A i, j \in 1..Cardinality(S) : i # j => p[i] # p[j]}
+PushInOrder(st, sq) ==
+  IF AnyRequeueOrder THEN UNION {PushAll({st}, p) : p \in PermSeqs(Range(sq))}
+  ELSE PushAll({st}, sq)
 
 (* _preenjobq: pop done heads, i.e. drop the done jobs smaller than every undone one *)
 Preen(jb, h) == {s \in h : ~(jb[s].done /\ \A t \in h : ~jb[t].done => Less(jb, s, t))}
@@ -168,7 +176,7 @@ PullStart(w, chs) ==
 (* QPlugin.shutdown as handle_client's `finally` runs it: re-queue the unfinished jobs of
    connection w (reference) and forget the connection.  st carries waiter/heap/wake. *)
 ShutdownOf(w, st, run) ==
-  PushAll({st}, SelectSeq(run, LAMBDA s : RequeueDone \/ ~job[s].done))
+  PushInOrder(st, SelectSeq(run, LAMBDA s : RequeueDone \/ ~job[s].done))
 
 (* the resumption of a blocked puller: `finally: _waiters.remove`, then rpc_qpull records the job.
    Reference: a job that finished while in the mailbox is discarded and the pop is retried.
@@ -210,7 +218,7 @@ DeliverKill(w, rest) ==
   IF conn[w] # "closing"
   THEN wake' = rest /\ UNCHANGED <<heap, waiter, conn, running>>
   ELSE LET off == [waiter EXCEPT ![w] = [on |-> FALSE, chs |-> {}, box |-> NoJob]] IN
-       /\ \E st \in PushAll({St(off, heap, rest)}, Requeued(w)) :
+       /\ \E st \in PushInOrder(St(off, heap, rest), Requeued(w)) :
             waiter' = st.waiter /\ heap' = st.heap /\ wake' = st.wake
        /\ running' = [running EXCEPT ![w] = <<>>]
        /\ conn' = [conn EXCEPT ![w] = "closed"]
